@@ -208,11 +208,51 @@ def single_def(fn, name):
 
 
 # ------------------------------------------------------------------------------- gateway calls
+def gateway_names(w):
+  """(name of the strict gateway, names of all gateways incl. wrappers), the gateway being found
+  by role when it was renamed: the UserActions method that appends its argument to
+  out_actions.stored and hands it to apply_doc_action; wrappers are methods returning a call of
+  it. Cached on the World."""
+  got = w.__dict__.get("_hB_gateways")
+  if got is not None:
+    return got
+  def role(fi):
+    attrs = [x for x in ast.walk(fi.node) if isinstance(x, ast.Attribute)]
+    return len(fi.params()) == 2 and any(x.attr == "apply_doc_action" for x in attrs) and \
+        any(x.attr == "append" and isinstance(x.value, ast.Attribute) and
+            x.value.attr == "stored" for x in attrs)
+  try:
+    gw = find_by_role(w, "useractions.UserActions", "_do_doc_action", role, "doc action gateway")
+    strict = gw.name
+  except AnalysisError:
+    strict = "_do_doc_action"
+  names = {strict, "_do_doc_action", "_do_extra_doc_action"}
+  ci = w.repo.classes.get("useractions.UserActions")
+  if ci is not None:
+    for f in ci.methods.values():
+      if len(f.params()) == 2 and f.name != strict:
+        rets = [r.value for r in ast.walk(f.node) if isinstance(r, ast.Return)]
+        if rets and all(isinstance(r, ast.Call) and isinstance(r.func, ast.Attribute) and
+                        r.func.attr == strict for r in rets):
+          names.add(f.name)
+  w.__dict__["_hB_gateways"] = (strict, names)
+  return (strict, names)
+
+
+def is_strict_gateway(w, c, nm, fn):
+  return E.is_strict_gateway_call(c, nm, fn) or endswith(nm, gateway_names(w)[0])
+
+
+def is_gateway(w, c, nm, fn):
+  return E.is_gateway_call(c, nm, fn) or (isinstance(c.func, (ast.Attribute, ast.Name)) and
+                                          endswith(nm, *gateway_names(w)[1]))
+
+
 def gateway_sites(fn):
   """[(cfg node, Call)] for calls of the strict gateway (_do_doc_action) in fn."""
   out = []
   for (n, c, nm) in fn.calls():
-    if E.is_strict_gateway_call(c, nm, fn):
+    if is_strict_gateway(fn.world, c, nm, fn):
       c = norm(fn.world, fn, c)
       if c.args:
         out.append((n, c))
@@ -264,7 +304,9 @@ def classify_gateway_arg(fn, du, call, names):
   kinds = action_kinds_of_arg(fn, du, arg, names)
   # the wrapper's own parameter handed on unchanged (possibly through plain copies)
   forwarded = False
-  if fn.fi.name in GATEWAY_WRAPPERS and isinstance(arg, ast.Name):
+  if (fn.fi.name in GATEWAY_WRAPPERS or
+      fn.fi.name in gateway_names(fn.world)[1] - {gateway_names(fn.world)[0]}) and \
+      isinstance(arg, ast.Name):
     n_ = arg
     while isinstance(alias_value(fn, n_.id), ast.Name):
       n_ = alias_value(fn, n_.id)
@@ -302,10 +344,14 @@ def docmodel_handles(w):
   for s in fn.node.body:
     if isinstance(s, ast.Assign) and len(s.targets) == 1 and isinstance(s.targets[0], ast.Attribute) \
         and isinstance(s.targets[0].value, ast.Name) and s.targets[0].value.id == "self" and \
-        isinstance(s.value, ast.Call) and endswith(dotted(s.value.func), "_prep_table") and \
+        isinstance(s.value, ast.Call) and isinstance(s.value.func, ast.Attribute) and \
+        isinstance(s.value.func.value, ast.Name) and s.value.func.value.id == "self" and \
         len(s.value.args) + len(s.value.keywords) == 1:
+      # self.<handle> = self.<prepare>('<metadata table id>')  (the preparing method is found by
+      # this shape, not by its name)
       a = (list(s.value.args) + [k.value for k in s.value.keywords])[0]
-      if isinstance(a, ast.Constant):
+      if isinstance(a, ast.Constant) and isinstance(a.value, str) and \
+          a.value.startswith("_grist_"):
         out[s.targets[0].attr] = a.value
   if len(out) < 5:
     raise AnalysisError("DocModel.update_tables: table handles not recognised")
@@ -319,14 +365,27 @@ def record_accessors(w):
     return w._hB_accessors
   ci = w.repo.cls("docmodel.MetaTableExtras")
   out = {}
+  def factory_kind(name):
+    """which of the accessor factories a module-level function of docmodel is, by what the
+    accessor it builds does (its name is only a hint): lookupRecords by the child's field ->
+    '_record_set', with CONTAINS -> '_record_ref_list_set', lookupOne -> '_record_inverse'."""
+    f = w.repo.funcs.get("docmodel.%s" % name) if name else None
+    if f is None:
+      return None
+    attrs = {x.attr for x in ast.walk(f.node) if isinstance(x, ast.Attribute)}
+    if "lookupOne" in attrs:
+      return "_record_inverse"
+    if "lookupRecords" in attrs:
+      return "_record_ref_list_set" if "CONTAINS" in attrs else "_record_set"
+    return None
   for name, inner in ci.inner.items():
     acc = {}
     for s in inner.node.body:
       if isinstance(s, ast.Assign) and len(s.targets) == 1 and isinstance(s.targets[0], ast.Name) \
-          and isinstance(s.value, ast.Call) and dotted(s.value.func) in (
-            "_record_set", "_record_ref_list_set", "_record_inverse") and \
+          and isinstance(s.value, ast.Call) and factory_kind(dotted(s.value.func)) and \
           len(s.value.args) >= 2 and all(isinstance(a, ast.Constant) for a in s.value.args[:2]):
-        acc[s.targets[0].id] = (s.value.args[0].value, s.value.args[1].value, dotted(s.value.func))
+        acc[s.targets[0].id] = (s.value.args[0].value, s.value.args[1].value,
+                                factory_kind(dotted(s.value.func)))
     out[name] = acc
   if not out:
     raise AnalysisError("MetaTableExtras: no inner classes found")
@@ -1616,14 +1675,31 @@ class NormWorld(object):
   Passing an argument by keyword instead of by position does not change what a call does, so the
   rule decides the same property. Everything else is delegated to the real World."""
 
-  def __init__(self, w):
+  def __init__(self, w, canonical=None):
+    """canonical: {qualname the reused rule names: role(FuncInfo)} for private anchors of that
+    rule; when such a function was renamed it is found by role and shown to the rule under the
+    name it expects (definition and call sites in the normalised copies)."""
     self._w = w
     self._nfns = {}
+    self._back = {}          # actual private name -> canonical name
+    self._alias = {}         # canonical qualname -> actual FuncInfo
+    for q, role in (canonical or {}).items():
+      if w.repo.funcs.get(q) is None:
+        owner, name = q.rsplit(".", 1)
+        try:
+          fi = find_by_role(w, owner, name, role, "anchor of a reused rule")
+        except AnalysisError:
+          continue
+        self._back[fi.name] = name
+        self._alias[q] = fi
 
   def __getattr__(self, name):
     return getattr(self._w, name)
 
   def fn(self, qualname):
+    if qualname in self._alias:
+      f = self.fn_of(self._alias[qualname])
+      return f
     return self.fn_of(self._w.repo.func(qualname))
 
   def fn_of(self, fi):
@@ -1654,11 +1730,21 @@ class NormWorld(object):
           cc.args = list(cc.args) + [kws[k] for k in order]
           cc.keywords = []
           changed = True
+    qual = fi.qualname
+    if self._back:
+      for x in ast.walk(node):
+        if isinstance(x, ast.Attribute) and x.attr in self._back:
+          x.attr = self._back[x.attr]
+          changed = True
+      if node.name in self._back:
+        node.name = self._back[node.name]
+        qual = fi.qualname.rsplit(".", 1)[0] + "." + node.name
+        changed = True
     if not changed:
       self._nfns[fi.qualname] = base
       return base
     ast.fix_missing_locations(node)
-    fake = FuncInfo(fi.module, fi.cls, node, fi.qualname, fi.parent)
+    fake = FuncInfo(fi.module, fi.cls, node, qual, fi.parent)
     typer = w.typer
     saved = typer._cache.pop(fi.qualname, None)
     try:
@@ -1717,3 +1803,89 @@ def is_private_part(w, fi):
     return (False, None)
   callers = {g.qualname if g.parent is None else g.parent.qualname for (g, ok) in rs}
   return (True, callers.pop()) if len(callers) == 1 else (False, None)
+
+
+# ---------------------------------------------------------------- private anchors by role (round 3)
+def find_by_role(w, owner, name_hint, role, what):
+  """FuncInfo of a private anchor: the method `name_hint` of class `owner` (or function of module
+  `owner`) when it still exists, else the one method of that class -- or function of its module,
+  for a self-less method moved to module level (or the reverse) -- that satisfies role(FuncInfo):
+  a renamed or moved private helper is followed, its name being only a hint."""
+  ci = w.repo.classes.get(owner)
+  mod = ci.module if ci is not None else w.repo.modules.get(owner)
+  if ci is not None and name_hint in ci.methods:
+    return ci.methods[name_hint]
+  if mod is not None:
+    f = w.repo.funcs.get("%s.%s" % (mod.name, name_hint))
+    if f is not None:
+      return f
+  cands = []
+  if ci is not None:
+    for c in w.repo.mro(ci):
+      cands += [f for f in c.methods.values()]
+  if mod is not None:
+    cands += [f for f in w.repo.all_functions() if f.module is mod and f.cls is None and
+              f.parent is None]
+  hits = []
+  for f in cands:
+    try:
+      if role(f):
+        hits.append(f)
+    except AnalysisError:
+      pass
+  uniq = {f.qualname: f for f in hits}
+  if len(uniq) == 1:
+    return next(iter(uniq.values()))
+  raise AnalysisError("%s: %s.%s no longer exists and %s found by what it does"
+                      % (what, owner, name_hint,
+                         "no replacement was" if not uniq else "several candidates were"))
+
+
+def calls_to(w, fn, fi, cfg=None):
+  """[(node, Call)] for the calls in fn that resolve to function fi (by resolution, or -- for an
+  untyped receiver -- by its unique name)."""
+  out = []
+  for (n, c, nm) in fn.calls(cfg):
+    t = local_callee(w, fn, c)
+    if t is fi or (t is None and isinstance(c.func, ast.Attribute) and c.func.attr == fi.name
+                   and callee_of(w, fn, c) is fi):
+      out.append((n, c))
+  return out
+
+
+def engine_anchor(w, which):
+  """Private Engine methods the rules about apply_user_actions refer to, found by role when the
+  name no longer exists: 'recalc' (brings every dirty node up to date: no parameters, works off
+  self.recompute_map), 'undo' (rollback: cuts out_actions.stored with `del ...stored[n:]`),
+  'apply_one' (dispatches one user action: getattr(self.user_actions, <name>)(*args))."""
+  E_ = "engine.Engine"
+  def mentions_attr(fi, attr):
+    return any(isinstance(x, ast.Attribute) and x.attr == attr for x in ast.walk(fi.node))
+  if which == "recalc":
+    def role(fi):
+      if fi.params() != ["self"] or not mentions_attr(fi, "recompute_map"):
+        return False
+      # the one that apply_user_actions (or a private part of it) calls
+      return any(g.qualname.startswith(E_ + ".apply_user_actions") or
+                 is_private_part(w, g)[1] == E_ + ".apply_user_actions"
+                 for (g, ok) in referrers(w, fi) if ok)
+    return find_by_role(w, E_, "_bring_all_up_to_date", role, "recalculation of all dirty nodes")
+  if which == "undo":
+    def role(fi):
+      return any(isinstance(x, ast.Delete) and any(
+        isinstance(t, ast.Subscript) and isinstance(t.value, ast.Attribute) and
+        t.value.attr == "stored" for t in x.targets) for x in ast.walk(fi.node))
+    return find_by_role(w, E_, "_undo_to_checkpoint", role, "rollback to a checkpoint")
+  if which == "apply_one":
+    def role(fi):
+      for x in ast.walk(fi.node):
+        if isinstance(x, ast.Call) and isinstance(x.func, ast.Call) and \
+            dotted(x.func.func) == "getattr" and x.func.args and \
+            endswith(dotted(x.func.args[0]), "user_actions"):
+          return True
+      return False
+    try:
+      return find_by_role(w, E_, "_apply_one_user_action", role, "dispatch of one user action")
+    except AnalysisError:
+      return None          # inlined into its caller: the dispatch itself is recognised there
+  raise AnalysisError("unknown engine anchor %s" % which)
